@@ -103,6 +103,11 @@ impl<'a> World<'a> {
                     Some(MNode::Dir(_)) => {
                         state = "directory";
                         errs.push("OpenedDirAsFile");
+                        // a directory that also carries the read-only attribute may be refused for that reason first
+                        if writes && !dotname && self.disk_dir(dh.vol, dh.dir).2.iter().any(|e| e.name == n && e.attr & 0x11 == 0x11) {
+                            errs.push("ReadOnly");
+                            self.probes.hit("readonly_directory_opened_as_file_for_writing");
+                        }
                         if m == 3 {
                             errs.push("FileAlreadyExists");
                         }
